@@ -762,5 +762,10 @@ func TestVerifC18History(t *testing.T) {
 	vC18HDefinedSets(o, r, s, nDS, true)
 	vC18HDefinedSets(o, r, s, nDS, false)
 	vC18HStatements(o, r, s, nSt)
+	nRm := 400
+	if o.thorough {
+		nRm = 3000
+	}
+	vC18HPolicyRemoval(o, r, s, nRm)
 	vC18HPolicies(o, r, s, nPol)
 }
